@@ -110,11 +110,14 @@ Tolerances (all derived here, see ``tol_pos``):
 * stale schedules (propagation WITH scheduled events - ECI / NTW impulses, finite NTW burns - where every leg of a split is
   handed the FULL, un-pruned schedule: events that lie before the start of a call are over, events after its end are not due;
   the scenario loop prunes the queue before every step, a caller of propagate / propagateBulk or a filter handed a queue need
-  not).  States: split against direct call and against the segment-wise reference within tol_pos / tol_vel of the span (the split
-  tolerance above; propagateBulk outputs 3x, the dense-output allowance); measured worst ratio 0.09 (five seeds).  The smallest
-  event of the table is 3e-3 km/s (a 150 s burn at 2e-5 km/s^2) or 5e-3 km/s (impulse): applied twice, not at all, or at another
-  event's time >= 0.02 spans away it moves the state by >= 5e-3 km/s x 6 s = 3e-2 km for the 300 s span (tolerance 2e-5 km) -
-  3 orders of margin.  Reference: event-free coasts (two-body: closed-form Kepler; SP: the real code without events) between
+  not).  States: split against direct call and against the segment-wise reference.  Error source: the integrator error E(T) of
+  the span, and at every event stop scipy hands back the dense-output interpolant at the event time instead of a step end (the
+  restart subcheck sees 0.09 tol_pos for one stop), so every state of this family, propagate and propagateBulk alike, gets the
+  dense-output allowance of the output grids: 3 * tol_pos / 3 * tol_vel of the span.  Measured worst error / (3 tol_pos): 0.03
+  quick tier (five seeds), 0.10 thorough (DOP853, a = 12000 km, e = 0.4, one hour, three stops: 8 steps per hour make its
+  interpolant the coarsest).  The smallest event of the table is 3e-3 km/s (a 150 s burn at 2e-5 km/s^2) or 5e-3 km/s
+  (impulse): applied twice, not at all, or at another event's time >= 0.02 spans away it moves the state by >= 5e-3 km/s x 6 s =
+  3e-2 km for the 300 s span (tolerance 7e-5 km) - > 2 orders of margin.  Reference: event-free coasts (two-body: closed-form Kepler; SP: the real code without events) between
   the event times, delta-v added by hand, thrust arcs integrated here with DOP853 at rtol 1e-12 (100x tighter than the library).
   Event records: the number of EventStack records of every call equals the
   number of events due in that call (exact, no tolerance) - a second observation channel that names the event kind applied
@@ -2008,7 +2011,10 @@ def _run_stale_schedule(res, item):
     dyn, dyn_ref = _dynamics(kind, method, jd), _dynamics(kind, method, jd)
     x0 = _state(orb)
     a, e = orb[0], orb[1]
-    tp, tv = ctx.tp(a, e), ctx.tv(a, e)
+    tp0 = ctx.tp(a, e)
+    # every state of this family went through event stops, where scipy hands back the dense-output interpolant at the event
+    # time (not a step end): the dense-output allowance of the output-grid subcheck applies to all of them (module docstring)
+    tp, tv = DENSE_FACTOR * tp0, DENSE_FACTOR * ctx.tv(a, e)
     t2 = t0 + T
     grid = [t0 + f * T for f in ST_BULK_GRID]
     plain = _call(dyn_ref.propagate, t0, t2, x0.copy())
@@ -2039,7 +2045,7 @@ def _run_stale_schedule(res, item):
             raise RuntimeError(f"harness: reference failed for {name}: {ref!r}")
         want = ref[t2]
         # the events really act: otherwise every comparison below says nothing
-        acts = (not _bad(plain)) and fw.maxabs(want[:3], np.asarray(plain)[:3]) > 1000.0 * tp
+        acts = (not _bad(plain)) and fw.maxabs(want[:3], np.asarray(plain)[:3]) > 1000.0 * tp0
         # -- the direct call with the whole schedule against the reference
         direct = _call(dyn.propagate, t0, t2, x0.copy(), scheduled_events=_st_objects(events))
         case = dict(extra, entry="propagate", decomposition="direct")
@@ -2099,8 +2105,7 @@ def _run_stale_schedule(res, item):
                 case = dict(extra, entry="propagateBulk", decomposition="direct" if len(plan) == 1 else "two_legs", variant=variant, output_frac=round((t - t0) / T, 6),
                             legs_with_stale_and_live_events=stale_live)
                 nontrivial = bool(acts) and (variant != "full_fresh" or (stale_live > 0 and t > plan[-1][0]))
-                # dense output between step ends: the grid allowance of the output-grid subcheck (see module docstring)
-                ctx.compare("stale_schedule", orb, got, ref[t], DENSE_FACTOR * tp, DENSE_FACTOR * tv, nontrivial=nontrivial,
+                ctx.compare("stale_schedule", orb, got, ref[t], tp, tv, nontrivial=nontrivial,
                             detail=f"propagateBulk/{variant}/vs_reference{sfx}", extra=case)
     res.case("input_unchanged", ctx.base(orb, family="stale_schedule"), bool(np.array_equal(x0, _state(orb))), signature=f"C03/input_mutated/{kind}/{method}", item=item)
     return ctx.ratios
